@@ -1,13 +1,17 @@
 #!/bin/sh
 # MANIFEST.setup_cmd: install third-party helpers from the offline wheelhouse into /verif/.deps (git-ignored).
-# Every check also calls this lazily when .deps is absent, so a fresh restore works either way.
+# Every check also calls this lazily when .deps is absent, so a fresh restore works either way; a lock keeps two
+# checks that start at the same moment from installing into the same directory at once.
 set -e
 cd "$(dirname "$0")"
-if [ ! -f .deps/.ok ]; then
-    rm -rf .deps
-    PIP_NO_INDEX=1 /venv/bin/pip install --quiet --no-index --find-links /opt/veriftools/wheels \
-        --target .deps numpy icontract deal >/dev/null 2>.deps.log || { cat .deps.log; exit 1; }
-    rm -f .deps.log
-    touch .deps/.ok
-fi
+(
+    flock 9 2>/dev/null || true
+    if [ ! -f .deps/.ok ]; then
+        rm -rf .deps
+        PIP_NO_INDEX=1 /venv/bin/pip install --quiet --no-index --find-links /opt/veriftools/wheels \
+            --target .deps numpy icontract deal >/dev/null 2>.deps.log || { cat .deps.log; exit 1; }
+        rm -f .deps.log
+        touch .deps/.ok
+    fi
+) 9>.deps.lock
 echo "setup ok"
